@@ -135,3 +135,50 @@ func VerifC14_ParseStagesStructured() {
 		zz.Assert("C14.stages2.element_means_what_it_spells", st[i].Duration == wantD[i] && st[i].EndTarget == wantT[i] && st[i].StartTarget == 0)
 	}
 }
+
+// VerifC14_StagedTriggerAnyStartTime: the staged trigger built by CalculateStagedRate from a valid stages string
+// (the flag's default "0s:1, 10s:1", which begins with a zero-length stage, or one whose durations do not add up to
+// a whole number of ticks), an ARBITRARY tick frequency, distribution none/regular/random, and either no start time
+// or an ARBITRARY one (past or FUTURE): when accepted, the reported total duration is exactly the sum of the stage
+// durations (C10), the tick interval is positive, and evaluating the rate at an ARBITRARY instant - also before a
+// future start time - does not crash (C14: a usable rate function). Exact IEEE floats and 64-bit integers: a float outside the int64
+// range converts to an unspecified integer (Go leaves it to the implementation), so a counterexample that depends
+// on such a conversion is only reported when it reproduces natively.
+//
+//verif:unroll 12
+//verif:timeout 300
+func VerifC14_StagedTriggerAnyStartTime() {
+	freq := time.Duration(zz.Int64("frequency"))
+	dist := []string{"none", "regular", "random"}[zz.Choice("dist", 3)]
+	which := zz.Choice("stages", 2)
+	str := []string{"0s:1, 10s:1", "0s:0, 2500ms:100, 45s:7"}[which]
+	sum := []time.Duration{10 * time.Second, 47500 * time.Millisecond}[which]
+	var sp *time.Time
+	if zz.Bool("hasStart") {
+		s := zz.Int64("start")
+		zz.Assume(s >= 0 && s < 1<<60)
+		st := zz.Time(s)
+		sp = &st
+	}
+	rates, err := CalculateStagedRate(0, freq, str, dist, sp)
+	zz.Cover("C14.stagedstart.returned")
+	zz.CoverIf("C14.stagedstart.accepted_with_start_time", err == nil && sp != nil)
+	if err != nil {
+		zz.Assert("C14.stagedstart.rejected_only_for_a_bad_frequency", freq <= 0)
+		return
+	}
+	zz.Assert("C10.staged.reported_total_duration_is_the_sum_of_the_stage_durations", rates.Duration == sum)
+	zz.Assert("C14.stagedstart.accepted_trigger_is_runnable", rates.IterationDuration > 0 && rates.Rate != nil)
+	now := zz.Int64("now")
+	zz.Assume(now >= 0 && now < 1<<60)
+	r := rates.Rate(zz.Time(now)) // a panic here is a reachable-panic obligation (nopanic)
+	zz.CoverIf("C14.stagedstart.evaluated_before_a_future_start", sp != nil && now < zz.Int64("start"))
+	_ = r
+}
+
+// VerifC10_StagedTriggerDuration: the harness above, registered under C10 for "its reported total duration is the
+// sum of the stage durations" at the level of the trigger (what the run compares with max-duration).
+//
+//verif:unroll 12
+//verif:timeout 300
+func VerifC10_StagedTriggerDuration() { VerifC14_StagedTriggerAnyStartTime() }
